@@ -1,15 +1,126 @@
-import CentrifugeVerif.Model.Bracket
+import CentrifugeVerif.Proofs.Bracket
 /-!
 # C10 — channel pushes are bracketed by the subscription's start and end
-(first version: counter-witnesses of the code as it is; the invariant proof follows)
+
+Model: `Model/Bracket.lean` (one connection × one channel; subscriber, unsubscriber, any number of
+broadcasters, writer goroutine, per-channel batch timer as threads; every label one lock region or
+external call of the Go code; the transport frame log `wire` is part of the state).
+
+Full statement (DESIGN `bracket`): for EVERY configuration and every reachable state, `wire` is
+well-bracketed.  That statement is FALSE of the code as it is — the model, which mirrors the code,
+exhibits four counter-witnesses (below, each also replayed on the real code by the check):
+
+* C10-1  offset-0 publication before the subscribe reply (`offset0Checked = false`),
+* C10-2  server-side subscribe commits before it writes the subscribe push,
+* C10-3  `ReplyWithoutQueue`: the unsubscribe reply overtakes queued pushes,
+* C10-4  per-channel batching: `perChannelWriter.Add` after `delWriter`.
+
+What is proved: `bracket_partial` — for the configurations `Good` (offset-0 publications checked =
+the proposed fix applied, client-side subscription, replies through the queue, no per-channel
+batching, subscribe/unsubscribe calls for the channel not overlapping), for ALL interleavings of any
+number of subscribe/unsubscribe cycles, broadcasts of all four kinds, positioned or not, and writer
+steps, the frame log is well-bracketed in every reachable state — also the frames still queued.
+Missing for the full theorem: exactly the four configurations/defects above.
 -/
 namespace CentrifugeVerif.Bracket
 
-/-- the code as it is, client-side non-positioned subscription -/
-def cfgAsIs : Cfg :=
-  { serverSide := false, positioned := false, batching := false, rwq := false,
+/-- `bracket` for the fixed variant, restricted to the configurations where it holds. -/
+theorem bracket_partial (cfg : Cfg) (hg : Good cfg) (s : State) (hr : Reachable cfg s) :
+    wellBracketed s.wire = true := by
+  obtain ⟨o, ho, _⟩ := (inv_reachable hg hr).ok
+  have : (scanFrom false (s.wire ++ (s.inflight ++ s.queue))).isSome := by
+    simp only [emitted, List.append_assoc] at ho
+    rw [ho]; rfl
+  exact scanFrom_prefix this
+
+/-- … and nothing that is already queued can break it later: the whole emission order is bracketed. -/
+theorem bracket_partial_emitted (cfg : Cfg) (hg : Good cfg) (s : State) (hr : Reachable cfg s) :
+    wellBracketed (s.wire ++ s.inflight ++ s.queue) = true := by
+  obtain ⟨o, ho, _⟩ := (inv_reachable hg hr).ok
+  simp only [emitted] at ho
+  unfold wellBracketed
+  rw [ho]; rfl
+
+/-- a push is only ever written while the subscription is committed or being torn down:
+consequence used by the harness oracle (a committed subscription implies an open bracket). -/
+theorem subscribed_open (cfg : Cfg) (hg : Good cfg) (s : State) (hr : Reachable cfg s) (g : Nat)
+    (hc : s.chan = some (g, true)) : scanFrom false (s.wire ++ s.inflight ++ s.queue) = some true := by
+  obtain ⟨o, ho, hopen⟩ := (inv_reachable hg hr).ok
+  have := hopen (Or.inl ⟨g, hc⟩)
+  subst this
+  exact ho
+
+/-! ### non-vacuity of the hypotheses -/
+
+def cfgFixed (positioned : Bool) : Cfg :=
+  { serverSide := false, positioned := positioned, batching := false, rwq := false,
+    offset0Checked := true, serial := true, pubSerial := false }
+
+example : Good (cfgFixed true) := ⟨rfl, rfl, rfl, rfl, rfl⟩
+example : Good (cfgFixed false) := ⟨rfl, rfl, rfl, rfl, rfl⟩
+
+/-- a full cycle in a `Good` configuration: subscribe, a join parked across the check, a checked
+offset-0 publication, unsubscribe; the frame log is `S, P0, J, E`. -/
+example :
+    (run (cfgFixed false) State.init
+      [.sSpawn, .sStep, .sStep, .bStart .pub0 1, .bCheck 0, .sStep, .sStep, .sStep, .sStep, .sStep, .sStep, .sStep,
+       .bStart .pub0 2, .bStart .join 3, .bCheck 0, .bCheck 0, .bEnqueue 0, .bEnqueue 0,
+       .uSpawn false, .uStep, .uStep, .uStep, .wGrab, .wWrite]).map (·.wire)
+      = some [.subStart, .push .pub0 2, .push .join 3, .subEnd] := by decide
+
+/-! ### counter-witnesses: the code as it is violates the full statement -/
+
+def asIs (ss pos bat rwq : Bool) : Cfg :=
+  { serverSide := ss, positioned := pos, batching := bat, rwq := rwq,
     offset0Checked := false, serial := true, pubSerial := true }
 
-theorem wellBracketed_nil : wellBracketed [] = true := by decide
+/-- C10-1: a publication without offset lands between hub add and the subscribe reply and is written
+first (client-side, non-positioned; the same path exists for positioned subscriptions). -/
+example :
+    ∃ s, run (asIs false false false false) State.init
+      [.sSpawn, .sStep, .sStep, .bStart .pub0 1, .bEnqueue 0, .wGrab, .wWrite] = some s ∧
+      s.wire = [.push .pub0 1] ∧ wellBracketed s.wire = false := by decide
+
+/-- … and with the switch on (the proposed fix) the same labels are no longer a path: the publication
+is dropped at the `flagSubscribed` check, there is nothing to enqueue. -/
+example :
+    run { asIs false false false false with offset0Checked := true } State.init
+      [.sSpawn, .sStep, .sStep, .bStart .pub0 1, .bCheck 0, .bEnqueue 0] = none := by decide
+
+/-- C10-2: server-side subscribe, a join delivered between `commitSubscription` and the subscribe push. -/
+example :
+    ∃ s, run (asIs true false false false) State.init
+      [.sSpawn, .sStep, .sStep, .sStep, .sStep, .sStep, .sStep, .bStart .join 1, .bCheck 0, .bEnqueue 0,
+       .wGrab, .wWrite] = some s ∧
+      s.wire = [.push .join 1] ∧ wellBracketed s.wire = false := by decide
+
+/-- C10-3: `ReplyWithoutQueue`, a publication dequeued by the writer but not yet written is overtaken
+by the directly written unsubscribe reply. -/
+example :
+    ∃ s, run (asIs false false false true) State.init
+      [.sSpawn, .sStep, .sStep, .sStep, .sStep, .sStep, .sStep, .sStep, .sStep, .sStep,
+       .bStart .pubPos 1, .bCheck 0, .bEnqueue 0, .wGrab,
+       .uSpawn false, .uStep, .uStep, .uStep, .wWrite] = some s ∧
+      s.wire = [.subStart, .subEnd, .push .pubPos 1] ∧ wellBracketed s.wire = false := by decide
+
+/-- C10-4: per-channel batching, `Add` after `delWriter`, flushed by the delay timer after the
+unsubscribe reply. -/
+example :
+    ∃ s, run (asIs false false true false) State.init
+      [.sSpawn, .sStep, .sStep, .sStep, .sStep, .sStep, .sStep, .sStep, .sStep, .sStep, .wGrab, .wWrite,
+       .bStart .pubPos 1, .bCheck 0, .uSpawn false, .uStep, .bEnqueue 0, .uStep, .uStep, .wGrab, .wWrite,
+       .tFlush, .wGrab, .wWrite] = some s ∧
+      s.wire = [.subStart, .subEnd, .push .pubPos 1] ∧ wellBracketed s.wire = false := by decide
+
+/-- without the `serial` assumption untagged frames are ambiguous: a late unsubscribe push of the
+previous subscription lands inside the next one (not claimed as a violation of the property text,
+see the check's assumptions). -/
+example :
+    ∃ s, run { cfgFixed false with serial := false } State.init
+      [.sSpawn, .sStep, .sStep, .sStep, .sStep, .sStep, .sStep, .sStep, .sStep, .sStep,
+       .uSpawn true, .uStep, .uStep,
+       .sSpawn, .sStep, .sStep, .sStep, .sStep, .sStep, .sStep, .sStep, .sStep, .sStep,
+       .uStep, .bStart .join 1, .bCheck 0, .bEnqueue 0, .wGrab, .wWrite] = some s ∧
+      s.wire = [.subStart, .subStart, .subEnd, .push .join 1] ∧ wellBracketed s.wire = false := by decide
 
 end CentrifugeVerif.Bracket
